@@ -39,6 +39,11 @@ impl private::SignedInteger for i32 {
     fn from_i64(i: i64) -> Self {
         i as i32
     }
+
+    #[inline]
+    fn wrapping_add(self, rhs: Self) -> Self {
+        i32::wrapping_add(self, rhs)
+    }
 }
 
 impl SignedInteger for i64 {}
@@ -57,6 +62,11 @@ impl private::SignedInteger for i64 {
     #[inline]
     fn from_i64(i: i64) -> Self {
         i
+    }
+
+    #[inline]
+    fn wrapping_add(self, rhs: Self) -> Self {
+        i64::wrapping_add(self, rhs)
     }
 }
 
@@ -78,6 +88,9 @@ mod private {
 
         /// Unconditionally converts i64 to ourself
         fn from_i64(i: i64) -> Self;
+
+        /// Adds without overflow checking
+        fn wrapping_add(self, rhs: Self) -> Self;
     }
 }
 
@@ -2352,15 +2365,15 @@ impl<I: SignedInteger> Subframe<I> {
             for split in coefficients.len()..channel.len() {
                 let (predicted, residuals) = channel.split_at_mut(split);
 
-                residuals[0] += I::from_i64(
+                residuals[0] = residuals[0].wrapping_add(I::from_i64(
                     predicted
                         .iter()
                         .rev()
                         .zip(coefficients)
-                        .map(|(x, y)| (*x).into() * y)
-                        .sum::<i64>()
+                        .map(|(x, y)| Into::<i64>::into(*x).wrapping_mul(*y))
+                        .fold(0i64, i64::wrapping_add)
                         >> qlp_shift,
-                );
+                ));
             }
         }
 
